@@ -34,6 +34,9 @@ CLAIMS = {
  "C19": dict(tech=SMT, ref="DESIGN.md §8 C19",
   text="Position arithmetic of the string/table library for all int64 arguments (integer mode with explicit wrap-around): StringNormPos implements the manual's negative-position rule; string.sub takes exactly the bytes from max(1, norm i) to min(#s, norm j) (or the empty string) and never slices outside the string; string.byte never indexes outside it; string.rep returns s for n = 1, returns the empty string only when n = 0 or s is empty with no separator (or after the separator loop), and charges what it builds; table.remove only touches positions >= pos, and a position < 1 is only accepted when it equals #list or #list+1. Results that go through strings.Builder, Index/SetIndex with metamethods, upper/lower and table.sort are not decided.",
   note="Trusted: strings.Repeat result length = len(s)*count; strings.Builder, rt.Index/SetIndex/IntLen are external (heap havocked); call-site assertions refer to source-level locals (i, j, pos, ln, sep): renaming them detaches the contract (reported as attach failure)."),
+ "C17": dict(tech=SMT + "; case bodies of the pack/unpack option switches extracted byte-for-byte (fragments)", ref="DESIGN.md §8 C17",
+  text="Format-table kernel of C17: every fixed-size option (b B h H l j L J T f d n) aligns to the same boundary and transfers the same number of bytes in string.pack and string.unpack (each case body of the two option switches is extracted verbatim and its align/read/write arguments are proved equal to the manual's table), and i[n], I[n], s[n] align to n on both sides; for wide integers (n > 8) the padding written around the 8-byte value is the sign extension (0xff iff the signed value is negative, 0 for unsigned) on either byte order, and the range check for n < 8 is exactly [-2^(8n-1), 2^(8n-1)-1] (int32 range for n = 4). The byte-level encoding (encoding/binary), the variable-size readers, %q, tostring/tonumber and printf agreement are not decided.",
+  note="Trusted: fragment wrappers (region text identical to the source); helper methods align/read/write/fill/checkBounds are external at the call sites (their arguments are asserted, their bodies not verified here); encoding/binary."),
 }
 
 NA = {
